@@ -417,6 +417,14 @@ func finish(ld *Loaded, db *SpecDB, reports []*FuncReport, groups map[string]*ob
 			violations++
 			p := writeReplayNote(prop, n, bad, "obligation was discharged on the baseline tree and is not discharged now")
 			lines = append(lines, fmt.Sprintf("VIOLATION property=%s replay=%s no-failing-input-found", prop, p))
+		case bad.Status == "failed" && bad.Kind == "safety" && (baselineHasFunc(baseline, bad.Func) || baselineHasFunc(baseline, bad.Host)):
+			// Panic freedom is an obligation of the function as a whole: every run-time check of
+			// every instruction was discharged on the baseline tree. The instruction is new, so
+			// there is no obligation of the same name to compare with, but the solver has a model
+			// in which it panics under the contracts of everything the function calls.
+			violations++
+			p := writeReplayNote(prop, n, bad, "panic freedom of the function was discharged on the baseline tree; this run-time check of a new instruction has a satisfying panic model")
+			lines = append(lines, fmt.Sprintf("VIOLATION property=%s replay=%s no-failing-input-found", prop, p))
 		default:
 			undecided++
 			lines = append(lines, fmt.Sprintf("UNDECIDED property=%s %s (%s)", prop, n, bad.Status))
@@ -550,6 +558,18 @@ func finish(ld *Loaded, db *SpecDB, reports []*FuncReport, groups map[string]*ob
 // a failure on any other path is still reported.
 // movedFromBaseline: the obligation arose in an un-annotated helper inlined into a function
 // for which the baseline holds the same obligation (code extracted into a helper).
+func baselineHasFunc(baseline map[string]bool, fn string) bool {
+	if fn == "" {
+		return false
+	}
+	for n := range baseline {
+		if strings.HasPrefix(n, fn+"/") {
+			return true
+		}
+	}
+	return false
+}
+
 func movedFromBaseline(baseline map[string]bool, ob *Obligation) bool {
 	if ob == nil || ob.Host == "" || ob.Host == ob.Func {
 		return false
